@@ -135,7 +135,9 @@ def run(ctx, res):
                     if rng.random() < 0.2 and extra:
                         extra.append((extra[0][0], 'dup-last-wins'))
                     config = rng.choice([None, 'adapters.conf', ''])
-                    hint = rng.choice([None, None, '1500', '0', '-1', '500.5', '20000', '+3000', '2e3'])
+                    hint = rng.choice([None, None, '1500', '0', '-1', '500.5', '20000', '+3000', '2e3',
+                                       # the value of a reserved key is arbitrary text: hints that are no numbers
+                                       'abc', '', '0x10', '1,5', 'ten seconds', '12ms', '--5', g.text(allow_none=False)])
                     cases.append((kind, v, extra, local, config, oc, hint))
     calls = []
     obs_l = []
@@ -181,7 +183,7 @@ def run(ctx, res):
         if sx.is_err(m) or m[:4] != impl:
             res.disagreements.append({'case': case, 'model': sx.dumps(m)[:700], 'impl': sx.dumps(impl)[:700], 'relation': 'Init.on_init = Server._on_init (calls, reply, close flag)'})
         # the hint handed over
-        want_hint = dict(pairs).get('keepalive_hint.millis') if hint is not None else None
+        want_hint = wire.pydict(pairs).get('keepalive_hint.millis')
         if obs['hints'] != [want_hint]:
             res.oracle_violations.append({'case': case, 'detail': '_use_keep_alive_hint called with %r, the Proxy sent %r' % (obs['hints'], want_hint), 'key': {'kind': 'hint_not_applied', 'outcome': oc}})
         if not sx.is_err(m):
@@ -191,12 +193,21 @@ def run(ctx, res):
                     res.disagreements.append({'case': case, 'model': sx.dumps(mh), 'impl': 'absent', 'relation': 'Init.parse_hint'})
             elif mh == sym('unmodelled'):
                 res.unmodelled += 1
+            elif mh == sym('malformed'):
+                # Init.surely_not_float: float() must indeed reject the text
+                try:
+                    float(want_hint)
+                    res.disagreements.append({'case': case, 'model': 'malformed', 'impl': 'float() accepts %r' % (want_hint,), 'relation': 'Init.surely_not_float => float(hint) raises ValueError'})
+                except ValueError:
+                    res.count('hint:malformed')
             else:
                 fr = Fraction(want_hint)
                 if Fraction(int(mh[1]), int(mh[2])) != fr or abs(float(want_hint) - float(fr)) > 1e-9 * max(1.0, abs(float(fr))):
                     res.disagreements.append({'case': case, 'model': sx.dumps(mh), 'impl': want_hint, 'relation': 'Init.parse_hint = float(hint)'})
         # ---- oracle: the property text
-        vv = None if v in (None, '#') else v
+        # the version the Proxy Adapter announced is the value the parameter map holds for the reserved key (a generated
+        # parameter may repeat that key: the last pair wins, as in any map)
+        vv = wire.pydict(pairs).get('ARI.version')
         sp = spec(kind, vv)
         meth = 'MPI' if kind == 'meta' else 'DPI'
         bad = None
